@@ -151,6 +151,8 @@ def run_case(case, keep_log=False):
                 if op.get("tag") == "requery":
                     probes["repeat_other_flags"] += 1
             faults_since.setdefault(key, fired_now)
+    except bm.CaseTooExpensive:
+        probes["truncated_designed_bound"] = 1
     except Violation as v:
         violation = v.to_json()
     fired = dict(built.plan.fired)
